@@ -990,6 +990,7 @@ def exec_merge(case, ns):
     merge2 = {}
     conflicts = []
     last_state = {}
+    rhs_seen = {}
     aliasing = []
     real_merge_with = Merger.merge_with
 
@@ -1003,6 +1004,10 @@ def exec_merge(case, ns):
             aliasing.append("changed-behind")
         if self.data is rhs:
             aliasing.append("self-merge")
+        # a right-hand document that is merged again (matrix mode) must still be the document that was loaded
+        if id(rhs) in rhs_seen and rhs_seen[id(rhs)][1] != r:
+            aliasing.append("rhs-changed")
+        rhs_seen.setdefault(id(rhs), (rhs, r))
         exc = None
         try:
             return real_merge_with(self, rhs)
